@@ -93,7 +93,15 @@ func c10PeerObserve(c2s []sim.Event) (pkts []c10PeerPkt, epochs []c10PeerEpoch, 
 		largest int64
 	}
 	var ks []*keyState // one per epoch
+	seen := map[string]bool{}
 	for di, e := range c2s {
+		// A datagram that repeats an earlier one byte for byte is that packet sent again, not
+		// a new packet (a closed connection answers every datagram it still receives with the
+		// stored CONNECTION_CLOSE packet): it uses no new packet number and is judged once.
+		if seen[string(e.Data)] {
+			continue
+		}
+		seen[string(e.Data)] = true
 		if len(e.Data) > c10MaxDatagram {
 			return nil, nil, 0, explore.Failf("datagram-too-large", "client datagram %d is %d bytes, more than the %d-byte maximum packet size", di, len(e.Data), c10MaxDatagram)
 		}
